@@ -75,7 +75,8 @@ Theorem C18_resize : forall w h t, TInv t -> 1 <= w -> 1 <= h ->
   /\ resize_cells w h (talt t) (talt t') /\ resize_geometry w h (talt t) (talt t')
   /\ onalt t' = onalt t /\ vflags t' = vflags t /\ vints t' = vints t /\ vstrs t' = vstrs t
   /\ kbm t' = kbm t /\ kba t' = kba t /\ tout t' = tout t
-  /\ tlog t' = EStyle (sty (talt t)) :: EStyle (sty (tmain t)) :: tlog t.
+  /\ tlog t' = EStyle (sty (active t')) :: ECursor (cx (active t')) (cy (active t'))
+               :: EStyle (sty (talt t)) :: EStyle (sty (tmain t)) :: tlog t.
 Proof. exact resize_spec. Qed.
 Print Assumptions C18_resize.
 
@@ -90,7 +91,8 @@ Theorem C18_resize_any_moment : forall (wc : Z -> Z) (grid : bool) w0 h0 ops w h
   /\ resize_cells w h (talt t) (talt t') /\ resize_geometry w h (talt t) (talt t')
   /\ onalt t' = onalt t /\ vflags t' = vflags t /\ vints t' = vints t /\ vstrs t' = vstrs t
   /\ kbm t' = kbm t /\ kba t' = kba t /\ tout t' = tout t
-  /\ tlog t' = EStyle (sty (talt t)) :: EStyle (sty (tmain t)) :: tlog t.
+  /\ tlog t' = EStyle (sty (active t')) :: ECursor (cx (active t')) (cy (active t'))
+               :: EStyle (sty (talt t)) :: EStyle (sty (tmain t)) :: tlog t.
 Proof. exact resize_any_moment. Qed.
 Print Assumptions C18_resize_any_moment.
 
@@ -116,7 +118,7 @@ Example C18_grow_example :
   row_at (resized 7 9) 1 = wide 22269 stA ++ [ch 100 stB] ++ wide 26085 stC ++ [blank stB; blank stB]
   /\ row_at (resized 7 9) 8 = blank_row 7 stB
   /\ cursor_of (resized 7 9) = (4, 1) /\ (top (resized 7 9), bot (resized 7 9)) = (1, 7)
-  /\ tlog (resize 7 9 ex_term) = [EStyle default_style; EStyle stB].
+  /\ tlog (resize 7 9 ex_term) = [EStyle stB; ECursor 4 1; EStyle default_style; EStyle stB].
 Proof. exact resize_example_grow. Qed.
 
 Example C18_margins_example : resize_margins 2 ex_scr = (0, 1) /\ resize_margins 4 ex_scr = (1, 2)
